@@ -569,7 +569,7 @@ func TestTamper(t *testing.T) {
 			if !ok {
 				return
 			}
-			class := c.PickStr("tamper.class", "storage", "storage-meta", "field", "field", "field", "signatures", "signatures", "none")
+			class := c.PickStr("tamper.class", "storage", "storage-meta", "storage-member-key", "field", "field", "field", "signatures", "signatures", "none")
 			data := w.file
 			what := class
 			switch class {
@@ -577,6 +577,28 @@ func TestTamper(t *testing.T) {
 				n := c.Int("storage.n", 1, 2)
 				for i := 0; i < n; i++ {
 					data = c.CorruptBlob("storage.blob", data, nil)
+				}
+			case "storage-member-key":
+				// one map key of the signatures section is garbled in place (same length, so
+				// every length field and offset still holds): the member it named is absent
+				keys := [][]byte{[]byte("\x64cert"), []byte("\x64ocsp"), []byte("\x63sct"), []byte("\x69authority"), []byte("\x63sig"), []byte("\x66signed")}
+				var at [][2]int
+				for ki, k := range keys {
+					for off := 0; ; {
+						i := bytes.Index(data[off:], k)
+						if i < 0 {
+							break
+						}
+						at = append(at, [2]int{off + i, ki})
+						off += i + 1
+					}
+				}
+				if len(at) > 0 {
+					a := at[c.Pick("memberKey.which", len(at))]
+					data = append([]byte(nil), data...)
+					data[a[0]+1+c.Int("memberKey.char", 0, len(keys[a[1]])-2)] ^= 0x20 // other letter case: another key
+					c.Fault("storage-garbled-map-key")
+					what = "storage-member-key:" + string(keys[a[1]][1:])
 				}
 			case "storage-meta":
 				if p, rj := refbundle.Parse(data); rj == nil {
